@@ -110,6 +110,11 @@ func runC11(c *Ctx) {
 	// ---- stream gosem: the prelude of the Go→Lean translator (lean/Knut/GoSem) against the real Go primitives
 	runGoSemStream(c, c.N(6000, 200000))
 
+	// ---- stream cli: columns and attribution on the real command line, in varying time zones
+	if !c.Replay || c.OnlyStr == "cli" {
+		runC11CLI(c)
+	}
+
 	// ---- stream 2: partitions, alignment, property monitor
 	n := c.N(4000, 150000)
 	lasts := []int{0, 0, 0, 1, 2, 3, 5, 100, -1}
